@@ -148,6 +148,7 @@ def check(ctx):
     ctx.attempt(_ocr_table)
     ctx.attempt(forward.check_all, module_suffixes=('trs.trs', 'tract.tract'))
     ctx.attempt(error_undef_tables)
+    ctx.attempt(lowered_before_unpack)
     ctx.attempt(common.test_then_shrink, [f for f in ctx.repo.funcs.values() if f.module.name.endswith(('trs.trs', 'unpack.unpackers', 'config.config'))])
     ctx.attempt(common.embedded_case_consistency, modules=('trs.trs',))
     ctx.attempt(common.clause_purity, [f for f in ctx.repo.funcs.values() if f.module.name.endswith(('trs.trs',))])
@@ -516,3 +517,39 @@ def error_undef_tables(ctx, rule='TBL'):
                               f"(twp, rge, sec) = {ex[1]} gives {ex[2]}: filter_errors() / the error flags "
                               f"{'miss' if ex and not ex[2] else 'wrongly include'} such elements") if ex else '',
                   key=f"{rule}|TRS.{meth}|table", where=fn.loc)
+
+
+def lowered_before_unpack(ctx, rule='DEFUSE'):
+    """The TRS unpacker regex is compiled case-insensitively (its error
+    placeholders are upper-case), so what its groups capture has the case of
+    the subject.  The parts of a TRS are compared with lower-case letters
+    everywhere ('n' / 's' / 'e' / 'w' in the sort keys, pretty_twprge, the
+    standard string itself), so the subject must be lower-cased before it is
+    matched."""
+    import re as _re
+    fi = ctx.repo.func('TRS.trs_to_dict')
+    rv = unpacker(ctx)
+    construct = 'TRS.trs_to_dict lower-cases the string before the case-insensitive unpacker sees it'
+    calls = [c for c in walk_local(fi.node) if isinstance(c, ast.Call) and isinstance(c.func, ast.Attribute)
+             and c.func.attr in ('fullmatch', 'match', 'search') and 'UNPACKER' in norm(c.func.value).upper() and c.args]
+    if not calls:
+        ctx.undecided(rule, construct, 'unpacker call not found')
+        return
+    if not (rv.flags & _re.I):
+        ctx.ok(rule, construct, 'the unpacker is case-sensitive')
+        return
+    for c in calls:
+        prov = flow.provenance(fi.node, c.args[0])
+        lowered = 'lower' in {x.split('.')[-1] for x in flow.prov_calls(prov)} or 'casefold' in {
+            x.split('.')[-1] for x in flow.prov_calls(prov)}
+        # ... or every captured direction is lowered afterwards
+        after = any(isinstance(x, ast.Call) and isinstance(x.func, ast.Attribute) and x.func.attr == 'lower'
+                    and any(isinstance(y, ast.Subscript) or (isinstance(y, ast.Call) and isinstance(y.func, ast.Attribute)
+                                                               and y.func.attr in ('group', 'groupdict'))
+                            for y in ast.walk(x.func.value)) for x in walk_local(fi.node))
+        ctx.tri(lowered, not lowered and not after, rule, construct,
+                detail_bad=f"`{norm(c)[:60]}` matches the string as given with a case-insensitive pattern: '154N97W14' yields "
+                           f"twp_ns='N', rge_ew='W' (and an upper-case .trs), which no comparison with 'n' / 's' / 'e' / 'w' "
+                           f"recognises - North sorts as South, the standard form is not unique",
+                key=f"{rule}|TRS.trs_to_dict|not-lowered", where=common.loc(fi, c),
+                why='groups are lower-cased after the match')
